@@ -191,4 +191,27 @@ Proof.
   - rewrite Ho. reflexivity.
 Qed.
 
+
+(* A read bound to a past coordinate (AS OF): Context::load / candidates hand the row as it stood
+   then to admit, after judging the row as it stands now (readable_now).  An element the caller
+   may not read now yields nothing, whatever its past rows contained or were classified as. *)
+Definition admit_hist (k : caller) (g : option N) (past now_row : option element) : option view * option N :=
+  match past with
+  | None => (None, g)
+  | Some x =>
+      match now_row with
+      | Some c => if readable k c then admit_k k g (Some x) else (None, g)
+      | None => admit_k k g (Some x)
+      end
+  end.
+
+Lemma hidden_now_hidden_then k g past c :
+  readable k c = false -> admit_hist k g past (Some c) = (None, g).
+Proof. intros H. unfold admit_hist. destruct past; [rewrite H|]; reflexivity. Qed.
+
+(* two histories of a now-unreadable element are indistinguishable at every coordinate *)
+Lemma past_of_hidden_not_inferable k g past past' c :
+  readable k c = false -> admit_hist k g past (Some c) = admit_hist k g past' (Some c).
+Proof. intros H. rewrite !hidden_now_hidden_then by exact H. reflexivity. Qed.
+
 End NI.
